@@ -915,6 +915,9 @@ func (r *pxRun) val(st *pxState, fr *pxFrame, v ssa.Value) *T {
 	switch x := v.(type) {
 	case *ssa.Const:
 		if x.Value == nil {
+			if _, isStruct := x.Type().Underlying().(*types.Struct); isStruct {
+				return zeroTerm(x.Type()) // the zero value of a struct type
+			}
 			return &T{Op: "const", Nil: true, Typ: x.Type()}
 		}
 		return &T{Op: "const", C: x.Value, Typ: x.Type()}
